@@ -21,7 +21,9 @@ TIERS = {"quick": {"cases": 700, "wall": 100, "min_nontrivial": 1500, "maxlen": 
          "thorough": {"cases": 16000, "wall": 1800, "min_nontrivial": 20000, "maxlen": 4}}
 RULE = ("part 1: histories h over a 10-symbol alphabet {create(f2003), create(f2008), parse(valid_1..3), "
         "parse(invalid_1..5)} enumerated exhaustively up to length 3 (quick) / 4 (thorough), plus random histories up "
-        "to length 8 over ~30 valid and ~30 invalid probes (including every scope-leaking shape known); after h: "
+        "to length 8 over ~70 valid probes (hand-written one per stateful grammar region, generated programs in canonical, "
+        "continued/';'-joined and fixed-form layout, f2py-enabled sources) and ~30 invalid probes (including every "
+        "scope-leaking shape known), observed with ignore_comments / process_directives on and off; after h: "
         "create(s); parse(x) is compared (accept/reject, exception text, str, structural shape, symbol-table forest; "
         "block:N renumbered) with a reference computed in a FRESH PROCESS doing only create(s); parse(x). part 2: after "
         "every raising parse: scope depth 0, current_scope None, top-level table names unchanged; and session A "
@@ -47,6 +49,29 @@ HAND_VALID = [
 # references to names that are intrinsics only in Fortran 2008 (valid under both standards; printed in upper case
 # only by the 2008 parser)
 HAND_VALID.append("program p\n  y = gamma(x) + erf(z)\n  k = shiftl(i, 2) + shiftr(j, 1) + shifta(m, 3)\nend program p\n")
+# one small program per grammar region that keeps state of its own (look-ahead hooks, caches, class lists)
+HAND_VALID += [
+    "subroutine s(a, n)\n  real a(n)\n  do 20 i = 1, n\n20 t = t + a(i)\n  do 10 i = 1, n\n10 if (a(i) < 0.0) a(i) = 0.0\nend subroutine s\n",
+    "program p\n  do 5 i = 1, 2\n  do 5 j = 1, 2\n5 x = i + j\n  do 7 k = 1, 2\n    y = k\n7 continue\nend program p\n",
+    "call setup()\nend\n",
+    "continue\ncall setup()\nend\n",
+    "common /c/ x\ncharacter(len=3) :: s\nx = 1\ns = 'abc'\nend\n",
+    "program p\n  x = 1.0; y = 2.0\n  a = 1; b = 2; c = 3\n  z = 0; w = 1\n  k = 1; l = 2\n  m = 1; n = 2\nend program p\n",
+    "module m\n  type t\n    integer :: i\n  contains\n    procedure :: f\n    generic :: g => f\n  end type t\n  interface\n    subroutine ext(a)\n      real a\n    end subroutine ext\n  end interface\ncontains\n  function f(this)\n    class(t) :: this\n    select type (this)\n    type is (t)\n      f = 1\n    class default\n      f = 2\n    end select\n  end function f\nend module m\n",
+    "subroutine io(u)\n  open (unit = u, file = 'a.txt', status = 'old')\n  read (u, 100, end = 20) x\n100 format (1x, f8.3, 2(i3, a))\n  write (u, '(a)') 'text'\n20 close (u)\n  where (a > 0) a = 1\n  forall (i = 1:3) b(i) = i\nend subroutine io\n",
+]
+# fixed-form sources whose comment lines are statements when read as free form (and the other way round)
+HAND_FIXED = [
+    "call setup()\n      call setup()\n      end\n",
+    "continue\n* x = 1\n      continue\n      x = 1\n      end\n",
+    "character(len=3) :: s\n      character(len=3) :: s\n      s = 'abc'\ncommon /c/ x\n      end\n",
+    "      program p\nc = 1\n      c = 1\n      x = 1.0; y = 2.0\n     & ; z = 3\n      end program p\n",
+]
+# sources read with f2py directives enabled (!f2py lines are statements)
+HAND_F2PY = [
+    "subroutine s(x, y)\n!f2py intent(in) x\n  real x\n!f2py intent(out) y\n!f2py integer y\n  y = x\nend subroutine s\n",
+    "program p\n  a = 1\n!f2py x = 1.0\n!f2py continue\nend program p\n",
+]
 HAND_INVALID = [
     # intrinsic argument count -> InternalSyntaxError inside a unit
     "subroutine s\n  x = sin(1, 2, 3)\nend subroutine s\n",
@@ -78,6 +103,21 @@ def probes():
         for k in range(24):
             std = "f2008" if k % 3 == 0 else "f2003"
             valid.append(generate(9000 + k, std, size=0.5, max_units=2).canonical())
+        from .. import layout, fixedform
+
+        fixed = list(HAND_FIXED)
+        for k in range(24, 52):
+            std = "f2008" if k % 3 == 0 else "f2003"
+            P = generate(9000 + k, std, size=0.8 if k % 2 else 0.5, max_units=2)
+            if k % 4 == 0:
+                # free-form layout with continuations, comments and ';' joins
+                valid.append(layout.render(P, random.Random(k), dict(p_cont=0.3, p_semi=0.3, comments=True, indent="depth"))[0])
+            elif k % 4 == 1:
+                fixed.append(fixedform.render(P, random.Random(k), dict(comments=True, p_semi=0.1))[0])
+            else:
+                valid.append(P.canonical())
+        _PROBES["fixed"] = fixed
+        _PROBES["f2py"] = list(HAND_F2PY)
         invalid = list(HAND_INVALID)
         r = random.Random(77)
         k = 0
@@ -112,7 +152,13 @@ def observe(text, opts=None):
     std = observe.std
     out = {"std": std}
     try:
+        opts = dict(opts)
+        f2py = opts.pop("_f2py", False)
         reader = fp.FortranStringReader(text, **opts)
+        if f2py:
+            from fparser.common.sourceinfo import FortranFormat
+
+            reader.set_format(FortranFormat(True, False, True))
         tree = observe.parser(reader)
         out["status"] = "tree"
         out["text"] = norm_text(str(tree))
@@ -121,7 +167,9 @@ def observe(text, opts=None):
         out["status"] = "syntaxerror"
         out["exc"] = str(e)[:300]
     except monitors.StepBudgetExceeded:
-        raise
+        # a parse that does not end within the step bound is an observation like any other: the fresh-process
+        # reference (which runs under the same bound) either agrees or the history made the difference
+        out["status"] = "step-budget-exceeded"
     except monitors.CaseTimeout:
         raise
     except BaseException as e:  # noqa
@@ -300,8 +348,11 @@ def after_history(hist, pr, finals, mons, tally):
         if observe.parser is None:
             continue
         names0 = monitors.top_table_names()
-        o = observe(pr[op[1]][op[2]])
-        if o["status"] != "tree":
+        o = observe(pr[op[1]][op[2]], {"_f2py": True} if op[1] == "f2py" else None)
+        if o["status"] == "step-budget-exceeded":
+            # aborted by the monitor, not by the parser: whatever is left open is the harness' doing
+            fp.SYMBOL_TABLES.clear()
+        elif o["status"] != "tree":
             mons["failing_parses_checked"] += 1
             v = leftovers(o, names0, pr[op[1]][op[2]], hist)
             if v:
@@ -390,9 +441,13 @@ def check(payload):
                     c = r.random()
                     if c < 0.25:
                         hist.append(("create", r.choice(["f2003", "f2008"])))
-                    elif c < 0.5:
+                    elif c < 0.45:
                         hist.append(("parse", "valid", r.randrange(len(pr["valid"]))))
-                    elif c < 0.65:
+                    elif c < 0.53:
+                        hist.append(("parse", "fixed", r.randrange(len(pr["fixed"]))))
+                    elif c < 0.57:
+                        hist.append(("parse", "f2py", r.randrange(len(pr["f2py"]))))
+                    elif c < 0.67:
                         hist.append(("parse", "f08", r.randrange(len(pr["f08"]))))
                     else:
                         hist.append(("parse", "invalid", r.randrange(len(pr["invalid"]))))
@@ -400,9 +455,11 @@ def check(payload):
                     hist.insert(0, ("create", r.choice(["f2003", "f2008"])))
                 finals = []
                 for _ in range(3):
-                    kind = r.choice(["valid", "valid", "valid", "invalid", "f08", "f08"])
-                    finals.append((r.choice(["f2003", "f2008"]), kind, r.randrange(len(pr[kind])),
-                                   r.choice([{}, {}, {"ignore_comments": False}])))
+                    kind = r.choice(["valid", "valid", "valid", "valid", "invalid", "f08", "f08", "fixed", "f2py"])
+                    o2 = r.choice([{}, {}, {"ignore_comments": False}, {"ignore_comments": False, "process_directives": True}])
+                    if kind == "f2py":
+                        o2 = dict(o2, _f2py=True)
+                    finals.append((r.choice(["f2003", "f2008"]), kind, r.randrange(len(pr[kind])), o2))
                 vs = after_history(hist, pr, finals, mons, tally)
                 mons["histories"] += 1
                 add(vs)
@@ -448,8 +505,9 @@ def check(payload):
 def _ref_main(argv):
     std, kind, i, opts = argv[0], argv[1], int(argv[2]), json.loads(argv[3])
     pr = probes()
-    create(std)
-    print(json.dumps(observe(pr[kind][i], opts)))
+    with monitors.NewMonitor(budget=3_000_000):
+        create(std)
+        print(json.dumps(observe(pr[kind][i], opts)))
 
 
 if __name__ == "__main__":
